@@ -122,6 +122,62 @@ def verify_list(cx, tree, step):
     return walked
 
 
+def verify_list_variants(cx, tree, step, walked):
+    """the other renderings of list: verbose (seconds and nanoseconds, wider link padding), --test-fmt disk (disk:path through
+    esc_shell_multi) and --test-fmt path (disk directory + path).  The byte stream is read by the model reader and rebuilt from
+    the model printer (for -v the 13 extra spaces of a link line are inserted by the harness: exercised by oracle only)"""
+    dirs = {n: os.fsencode(d) + b'/' for n, d in tree.disks}
+    for mode, args in (('verbose', ['-v', 'list']), ('fmtdisk', ['--test-fmt', 'disk', 'list']), ('fmtpath', ['--test-fmt', 'path', 'list'])):
+        rc, out, logb, err = tool(cx.exe, tree, args)
+        k = out.find(b'Listing...\n')
+        mt = re.search(rb'\n\n +\d+ files, for \d+ GB\n +\d+ links\n$', out)
+        if rc != 0 or k < 0 or not mt:
+            cx.bad('%s_%s' % (step, mode), 'list %s exits %d or prints no frame' % (' '.join(args), rc), {'stdout': out[-300:].decode('latin1')})
+            continue
+        sec = out[k + 11:mt.start() + 1]
+        exp_t = []
+        for n, fs, ls in walked:
+            pre = (n.encode() + b':') if mode == 'fmtdisk' else dirs[n] if mode == 'fmtpath' else b''
+            for sub, size, s_, ns_, ino, data in sorted(fs):
+                d1, d2 = date_tokens(s_)
+                if mode == 'verbose':
+                    d2 += b':%02u.%09u' % (time.gmtime(s_).tm_sec, ns_)
+                exp_t.append(('F', size, d1, d2, pre + sub))
+            for kind, sub, to in sorted(ls, key=lambda x: x[1]):
+                exp_t.append(('K', kind, pre + sub, pre + to))
+        got_t = parse_trecs(cx.m(['parseterm ' + hx(sec)])[0])
+        cx.evals += len(exp_t)
+        cx.kinds.add('list_' + mode)
+        if got_t != exp_t:
+            d = None if got_t is None else next(((a, b) for a, b in zip(got_t, exp_t) if a != b), ('length', len(got_t), len(exp_t)))
+            cx.bad('%s_%s' % (step, mode), 'list %s does not render the files and links of the tree (read by the model reader): first difference %r' % (' '.join(args), d),
+                   {'stdout_hex': hx(sec)[:4000], 'first_difference': repr(d)})
+            continue
+        pr = cx.m(['termlist ' + ' '.join(['F', str(r[1]), hx(r[2]), hx(r[3]), hx(r[4])] if r[0] == 'F' else ['K', r[1], hx(r[2]), hx(r[3])]) for r in exp_t])
+        parts = []
+        for r, o in zip(exp_t, pr):
+            b = unhx(o[3:])
+            if mode == 'verbose' and r[0] == 'K':
+                b = b.replace(b' ' * 18, b' ' * 31, 1)
+            parts.append(b)
+        if b''.join(parts) != sec:
+            cx.bad('%s_%s_bytes' % (step, mode), 'list %s prints other bytes than the modelled format' % ' '.join(args), {'stdout_hex': hx(sec)[:3000]}, drift=(mode != 'verbose'))
+    # dup with the disk:path rendering
+    rc, out, logb, err = tool(cx.exe, tree, ['--test-fmt', 'disk', 'dup'], 'dup.log')
+    dups = [r[1:] for r in parse_records(cx.m(['parselog ' + hx(logb)])[0]) if r[0] == 'D']
+    k = out.find(b'Comparing...\n')
+    mt = re.search(rb'\n\n +\d+ duplicates, for \d+ GB\n(There are duplicates!|No duplicates)\n$', out)
+    if k >= 0 and mt and dups:
+        names = sorted(set([(r[0], r[1]) for r in dups] + [(r[2], r[3]) for r in dups]))
+        esc = dict(zip(names, [unhx(o[3:]) for o in cx.m(['escmulti %s,3a,%s' % (hx(d), hx(nm)) for d, nm in names])]))
+        sizes = {(n.encode(), f[0]): f[1] for n, fs, ls in walked for f in fs}
+        exp = b''.join(b'%12d %s = %s\n' % (sizes[(d, nm)], esc[(d, nm)], esc[(d2, nm2)]) for d, nm, d2, nm2, sz in dups)
+        cx.evals += len(dups)
+        cx.kinds.add('dup_fmtdisk')
+        if out[k + 13:mt.start() + 1] != exp:
+            cx.bad(step + '_dup_fmtdisk', 'dup --test-fmt disk stdout is not "%12u <esc disk:name> = <esc disk:name>" for the reported pairs', {'stdout_hex': hx(out[k + 13:mt.start() + 1])[:3000]})
+
+
 def content_order(old, new):
     """order of disk->filelist after a further sync: the recorded files keep their order, new ones are appended in scan order"""
     res = []
@@ -264,6 +320,43 @@ def status_vs_content(cx, tree, step, out, logb, now0, now1):
             probs.append('rehash-in-progress text does not match the %d stripes recorded for rehash' % len(e['rehash']))
         if bool(e['unsynced']) != ('The array is NOT fully synced' in txt):
             probs.append('sync-in-progress text does not match the %d unsynced stripes' % len(e['unsynced']))
+    # the summary tags that are functions of the content file, the table, the graph, the list of bad stripes
+    se, rows = c20c.summary_expected(st)
+    got_s = {}
+    for l in lines:
+        if l.startswith('summary:') and not l.startswith('summary:has_'):
+            f = l.split(':')
+            got_s[':'.join(f[1:-1])] = f[-1]
+    for k, v in se.items():
+        if k not in got_s:
+            if not (k in ('parity_size', 'parity_size_max', 'hash', 'prev_hash') and not got_s):
+                probs.append('summary:%s is missing (recorded %s)' % (k, v))
+        elif got_s[k] != str(v):
+            probs.append('summary:%s is %s, the content file gives %s' % (k, got_s[k], v))
+    cx.evals += len(se)
+    for fc, ff, ef, name in rows:
+        pat = r'^ *%d +%d +%d +\S+ +\d+ +\S+ +\S+%s$' % (fc, ff, ef, (' ' + re.escape(name)) if name is not None else '')
+        if not re.search(pat, txt, re.M):
+            probs.append('no table row "%d files, %d fragmented, %d excess fragments" for %s' % (fc, ff, ef, name or 'the total'))
+    if e['count']:
+        tl = txt.split('\n')
+        gr = c20c.graph_expected(e['timemap'])
+        try:
+            k = next(i for i, l in enumerate(tl) if re.match(r'^ *\d+%\|', l))
+            if tl[k:k + 15] != gr:
+                d = next((a, b) for a, b in zip(tl[k:k + 15], gr) if a != b)
+                probs.append('graph row %r, the recorded times give %r' % d)
+        except StopIteration:
+            probs.append('no graph printed')
+        if (e['timemap'][-1] > now1) != ('You have scrub dates in the future' in txt) and (e['timemap'][-1] > now0) != ('You have scrub dates in the future' in txt):
+            probs.append('scrub-dates-in-the-future warning does not match the recorded newest time')
+        if e['bad']:
+            bl = c20c.bad_line_expected(e['bad'], len(e['bad']), e['has_bad'][1], e['has_bad'][2])
+            if bl not in tl:
+                probs.append('list of bad stripes %r, recorded %r' % (next((l for l in tl if l.startswith('They are from block')), None), bl))
+    free_known = any(m['free'] for m in st['maps']) or any(L['free'] for L in st['levels'].values())
+    if free_known == ('Free space info will be valid after the first sync' in txt):
+        probs.append('free-space warning does not match the recorded free block counts')
     if probs:
         cx.bad(step + '_content', 'status does not report the recorded state (content file decoded independently): ' + '; '.join(probs[:4]),
                {'problems': probs[:20], 'recorded_flag_combinations(bad,rehash,justsynced)': repr(e['flag_combinations']),
@@ -432,6 +525,7 @@ def scenario_main(cx, rng, ndisks, per_byte, nextra, share=None):
         cx.bad('sync', 'sync of a tree with adversarial names exits %d' % rc, {'stderr': err[-800:].decode('latin1')})
         return
     walked = verify_list(cx, tree, 'list1')
+    verify_list_variants(cx, tree, 'list1', walked)
     verify_dup(cx, tree, 'dup1', walked)
     # allocation of the first sync: per disk, files in scan order, consecutive positions
     pos = {}
@@ -636,16 +730,37 @@ def scenario_status_flags(cx, rng):
     tool(cx.exe, tree, ['scrub', '-p', '40', '-o', '0'])
     verify_status(cx, tree, 'f_rehash_scrub', None)
     cx.chk.cov['status_flag_combinations_produced_by_the_tool_itself'] = sorted(cx.flagsets)
+    # a file alone on its stripes goes away (stripes without any block and without info word, below recorded bad ones),
+    # then a longer file fills the hole and continues above the big one: a fragmented file
+    rnd = lambda n: bytes(rng.getrandbits(8) for _ in range(n))
+    tree.write(0, b'mid', rnd(5 * BLOCK), (t0 + 300) * 10 ** 9 + 1)
+    tree.write(0, b'zbig', rnd(112 * BLOCK), (t0 + 301) * 10 ** 9)
+    tool(cx.exe, tree, ['sync'])
+    verify_status(cx, tree, 'f_big', None)
+    os.remove(tree.path(0, b'mid'))
+    tool(cx.exe, tree, ['sync'])
+    e = verify_status(cx, tree, 'f_hole', None)
+    tree.write(0, b'frag', rnd(9 * BLOCK), (t0 + 302) * 10 ** 9 + 2)
+    tool(cx.exe, tree, ['sync'])
+    verify_status(cx, tree, 'f_fragmented', None)
+    se, rows = c20c.summary_expected(c20c.load(os.path.join(tree.root, 'content')))
+    cx.chk.cov['status_fragmented_files_excess_fragments_reached'] = [se['fragmented_file_count'], se['excess_fragment_count']]
+    cx.chk.cov['status_stripes_without_info_below_blockmax'] = 0 if e is None else sum(1 for l in e['block_lines'] if l.startswith('block_noinfo'))
+    verify_dup(cx, tree, 'f_dup_unique', [(n, ) + walk_disk(d) for n, d in tree.disks])
     # installed states: all eight combinations (and a missing info) spread over the stripes, times spread over a year
     cpath = os.path.join(tree.root, 'content')
     st = c20c.load(cpath)
     now = int(time.time())
-    for variant in range(2):
+    for variant in range(3):
         infos = []
         for i in range(st['blockmax']):
             c = (i + 3 * variant) % 9
-            if True:
-                c %= 8                                  # (a used stripe without info word makes the tool abort at load: not a status matter)
+            if st['info'][i] is None:
+                infos.append(None)                      # (a used stripe without info word makes the tool abort at load: not a status matter)
+            elif variant == 2:                          # more than 100 bad stripes, some scrub dates in the future
+                infos.append({'time': (now + (86400 * 3 if i % 5 == 0 else -86400 * (i % 30)) - 8 * i) & ~7, 'bad': i % 9 != 4, 'rehash': False, 'justsynced': i % 7 == 0})
+            else:
+                c %= 8
                 infos.append({'time': (now - ((i * 53 + 17 * variant) % 400) * 86400 - 8 * i) & ~7, 'bad': bool(c & 1), 'rehash': bool(c & 2), 'justsynced': bool(c & 4)})
         if not c20c.install_info(cpath, infos):
             cx.chk.notes.append('info record of the content file could not be located: installed-state status cases skipped')
@@ -728,6 +843,69 @@ def check_zerosub_log(cx, step, logb, walked, replay):
     if parts is None or any(p_ not in logb for p_ in parts):
         cx.bad(step + '_model', 'the zerosubsecond model prints other bytes than status.c although status.c logs the right names', {'model': mo[:800]}, drift=True)
     return True
+
+
+def scenario_status_space(cx, rng):
+    """the free-space arithmetic of status (usable size by space / by parity, wasted space, minimum over the parity levels):
+    recorded free block counts installed into the content file of a two-parity array"""
+    root = mkscratch('c20w.')
+    tree = Tree(root, 2, nparity=2)
+    for di in range(2):
+        for k in range(2 + di):
+            tree.write(di, b'f%d' % k, bytes(rng.getrandbits(8) for _ in range((k + 1) * BLOCK + di)), (1500000000 + k) * 10 ** 9 + 1)
+    tree.write(1, b'emptyfile', b'', 1500000009 * 10 ** 9 + 4)
+    rc, out, logb, err = tool(cx.exe, tree, ['sync'])
+    if rc != 0:
+        cx.bad('space_sync', 'sync of a two-parity array exits %d' % rc, {'stderr': err[-600:].decode('latin1')})
+        return
+    verify_status(cx, tree, 'w_synced', None)
+    cpath = os.path.join(tree.root, 'content')
+    variants = [({'d1': (0, 0), 'd2': (0, 0)}, {0: (0, 0), 1: (0, 0)}),                                        # no free-space info at all
+                ({'d1': (400000000, 300000000), 'd2': (50, 10)}, {0: (9000, 5000), 1: (9000, 1000)}),          # wasted space on d1, second level is the smaller
+                ({'d1': (40, 10), 'd2': (40, 0)}, {0: (400000000, 300000000), 1: (400000000, 350000000)})]     # parity far larger than the disks
+    for k, (df, pf) in enumerate(variants):
+        if not c20c.install_free(cpath, df, pf):
+            cx.chk.notes.append('M/P records of the content file could not be located: installed free-space cases skipped')
+            return
+        verify_status(cx, tree, 'w_installed%d' % k, None)
+
+
+def scenario_zerosub_many(cx):
+    """more than 50 files with a zero sub-second stamp on one disk: the 50th line says (more follow), later ones are not logged"""
+    root = mkscratch('c20m.')
+    tree = Tree(root, 2)
+    for k in range(57):
+        tree.write(0, b'z%02d:\n' % k if k % 2 else b'dir/z%02d' % k, b'q' * (10 + k), (1600000000 + k) * 10 ** 9)
+    for k in range(4):
+        tree.write(1, b'y%d' % k, b'r' * 30, (1600000100 + k) * 10 ** 9 + (k % 2))
+    tool(cx.exe, tree, ['sync'])
+    rc, out, logb, err = tool(cx.exe, tree, ['status'], 'status.log')
+    walked = [(n, ) + walk_disk(d) for n, d in tree.disks]
+    check_zerosub_log(cx, 'zerosub_many', logb, walked, {'scenario': 'zerosub_many'})
+    verify_status(cx, tree, 'zerosub_many', None)
+
+
+def scenario_empty(cx):
+    """an array without any file: every report must say so"""
+    root = mkscratch('c20e.')
+    tree = Tree(root, 2)
+    rc, out, logb, err = tool(cx.exe, tree, ['--force-empty', 'sync'])
+    if not os.path.exists(os.path.join(tree.root, 'content')):
+        cx.chk.notes.append('sync of an empty array writes no content file (exit %d): empty-array reports not exercised' % rc)
+        return
+    walked = verify_list(cx, tree, 'empty_list')
+    verify_dup(cx, tree, 'empty_dup', walked)
+    rc, out, logb, err = tool(cx.exe, tree, ['status'], 'status.log')
+    cx.evals += 3
+    cx.kinds.add('empty')
+    lines = logb.split(b'\n')
+    if rc != 0 or b'summary:has_unsynced:0' not in lines or b'summary:has_bad:0:0:0' not in lines or b'summary:file_count:0' not in lines:
+        cx.bad('empty_status', 'status of an array without files (exit %d) does not report zero files / unsynced / bad' % rc, {'log_tail': logb[-800:].decode('latin1')})
+    os.symlink(b'/nowhere', os.path.join(os.fsencode(tree.pool), b'stale'))
+    verify_pool(cx, tree, 'empty_pool', walked, [])
+    rc, out, logb, err = tool(cx.exe, tree, ['pool'], 'pool.log')
+    if b'summary:link_count::0' not in logb.split(b'\n') or b'No link' not in out:
+        cx.bad('empty_pool_log', 'pool of an array without files does not report zero links', {'stdout': out[-300:].decode('latin1')})
 
 
 def scenario_zerosub(cx):
@@ -856,7 +1034,8 @@ def main(tier, replay=None):
     n_unit, bails, drift = unit_correspondence(chk, drv, model, tier)
     rng = chk.rng
     cxs = []
-    plans = [('main', lambda cx: scenario_main(cx, rng, 3, True, 25)), ('pool', lambda cx: scenario_pool_rerun(cx, rng)), ('zerosub', scenario_zerosub), ('stale', scenario_pool_stale_dir), ('flags', lambda cx: scenario_status_flags(cx, rng))]
+    plans = [('main', lambda cx: scenario_main(cx, rng, 3, True, 25)), ('pool', lambda cx: scenario_pool_rerun(cx, rng)), ('zerosub', scenario_zerosub), ('stale', scenario_pool_stale_dir), ('flags', lambda cx: scenario_status_flags(cx, rng)),
+             ('zmany', scenario_zerosub_many), ('empty', scenario_empty), ('space', lambda cx: scenario_status_space(cx, rng))]
     if tier == 'thorough':
         plans += [('main%d' % i, (lambda cx, i=i: scenario_main(cx, rng, 2 + i % 4, i % 2 == 0, 60))) for i in range(1, 7)]
         plans += [('poolshare', lambda cx: scenario_pool_rerun(cx, rng, 3, share='/share/root'))]
@@ -892,5 +1071,9 @@ def main(tier, replay=None):
                         'list stdout model: default FMT_FILE mode, not verbose, localtime() succeeded; the date tokens are taken as printed',
                         'dup: collision freedom of the block hash and of the file-level hash on the finite state, no hash migration in progress (hypotheses of C20_dup_iff_equal_content)',
                         'dup stdout and the whole of pool.c are covered by command-level comparison only',
+                        'exercised by oracle only (no Gallina model): list -v (seconds.nanoseconds token, 13 extra spaces on link lines), the per-disk/total summary: tags, '
+                        'table rows, graph, scrub ages, list of bad stripes and free-space arithmetic of status (oracle = content file decoded by harness/py/content.py); '
+                        '--test-fmt disk/path renderings are read and rebuilt by the list stdout model with the prefixed name',
+                        'not reached: list.c symdir/junction (Windows only), pool.c and support.c fatal-error/bail branches, pool without a pool directory configured',
                         'status: the justsynced bit is not in the per-stripe dump; it is taken from the expected history and cross-checked with the info_time lines']
     return chk.finish()
